@@ -42,7 +42,7 @@ def run(ctx, col, tier):
     col.rule("R-ROLES", "the arg-min pair is used consistently: parent's child count grows, the new "
              "point records the parent, its path length is the parent's plus the edge, it becomes "
              "connected and can no longer be chosen as a child; the soma/first point is the root with "
-             "parent -1 and id 0; n-1 attachments", floor=7)
+             "parent -1 and id 0; n-1 attachments", floor=7, shape=True)
     col.rule("R-LIMIT", "branching-limit table over (child count ? limit) x root x exempt: a point is "
              "closed for further children iff the limit is on, its count reached the limit and it is "
              "not an exempt root", floor=12, exhaustive=True)
@@ -51,7 +51,7 @@ def run(ctx, col, tier):
              "lengths alone is exceeded by edge + factor x path length)", floor=1)
     col.rule("R-ACC", "the accumulated path length is a float array of its own (its dtype does not "
              "follow the input points): lengths are not truncated for integer coordinates", floor=1)
-    col.rule("R-CONST", "PointsToMST is the balanced variant with the constant factor 0", floor=1)
+    col.rule("R-CONST", "PointsToMST is the balanced variant with the constant factor 0", floor=1, shape=True)
     col.not_decided += ["minimality of the total length, the greedy selection over the run-time cost matrix, "
                         "mask bookkeeping as values: no sound static argument in reach"]
     col.assumptions += ["numpy broadcasting aligns trailing axes"]
